@@ -61,25 +61,25 @@ def spawn (s : St) : St :=
   { s with nextId := s.nextId + 1, pending := ins (s.nextId + 1) s.pending, live := s.live ++ [s.nextId + 1] }
 
 /--
-THE ONE PLACE where the model follows the replayed defect R-C18.
-`registerFailedConnectionTo`:
+THE ONE PLACE that decides what happens to the outbound slot after `BanAddress`.
+`registerFailedConnectionTo` (repaired in /repo, "fix: connection manager keeps filling an
+outbound slot after banning its address"):
 ```go
 if cm.isAddressConnectionAttemptsExceeded(c.Addr.String()) {
     cm.cfg.BanAddress(c.Addr.String())
-    return                      // <- no `go cm.NewConnReq()`: the outbound slot is gone
 }
 go cm.NewConnReq()
 ```
-`true` = the code as it is (nothing is scheduled after the ban). If the code is repaired
-(still schedule `NewConnReq` after `BanAddress`), set this to `false`: `afterBanAddress`
-becomes `spawn`, `lost` becomes 0, `C18_target_slots` then IS the full-strength statement
-for both configurations, and `C18_target_counterexample` has to be deleted (it becomes false).
+`false` = the code as it is now: a new request is scheduled after the ban as well.
+`true` was the code before the repair (finding R-C18: `return` after the ban, the slot was never
+dialled again); with `true` the theorems `C18_target`/`C18_target_replacement` fail for
+`banAddr = true` and the regression theorem `C18_target_after_ban` becomes false.
 -/
-def slotLostOnBan : Bool := true
+def slotLostOnBan : Bool := false
 
 def afterBanAddress (s : St) : St := if slotLostOnBan then s else spawn s
 
-/-- outbound slots no request is working on any more -/
+/-- outbound slots no request is working on any more (0 since the repair) -/
 def lost (s : St) : Nat := if slotLostOnBan then s.banned.length else 0
 
 /-- `handleFailedConn` for a non-permanent request (`addr = none`: `c.Addr == nil`, i.e.
